@@ -211,6 +211,14 @@ def gen_case(prop, seed, tier):
             if sw.random() < 0.4:
                 sa["target_size"] = 2 ** sw.randint(1, 5)
             post["simulated_annealing_opts"] = sa
+    # a number of slices the network cannot have is an infeasible request (every trial fails by design)
+    so = post.get("slicing_opts")
+    if so and "target_slices" in so:
+        space = netgen.index_space(size_dict)
+        while so["target_slices"] > 1 and so["target_slices"] > space:
+            so["target_slices"] //= 2
+        if so["target_slices"] <= 1:
+            post.pop("slicing_opts")
     # at most one slicing mechanism per configuration: stacking them asks the later one to slice a tree
     # that may already have nothing left to slice (an infeasible request, not a defect)
     if "slicing_reconf_opts" in post:
